@@ -122,9 +122,8 @@ def crate_attr(kind='path', trailing=False):
     return Attr('dw', metas_body([MNameValue('crate', kind, P('dw'))], trailing=trailing))
 
 
-RUSTC_OWN = re.compile(r'expected non-macro attribute|cannot find attribute|cannot find derive macro|cannot find macro|'
-                       r'produced unparsable tokens|cannot determine resolution|is not a trait|expected one of|'
-                       r'attribute macro .* (is|was) (ambiguous|private)')
+RUSTC_OWN = re.compile(r'expected non-macro attribute|cannot find attribute|cannot find derive macro|cannot find macro `|'
+                       r'produced unparsable tokens|cannot determine resolution for the')
 
 STAGE1_KINDS = {'dup': 0.03, 'badval': 0.08, 'unnecessary': 0.12, 'args': 0.14, 'forms': 0.15, 'marker': 0.17, 'dwq': 0.20}
 
